@@ -381,6 +381,9 @@ class FuncTypes:
                 out.append((target.id, T_ELEM))
             elif t == T_SPEC:
                 out.append((target.id, T_SPEC))
+            elif isinstance(it, ast.Call) and isinstance(it.func, ast.Attribute) and it.func.attr in ("values", "keys") and not it.args \
+                    and self.type_of(it.func.value) == T_SPEC:
+                out.append((target.id, T_SPEC if it.func.attr == "values" else T_STR))
         elif isinstance(target, ast.Tuple) and isinstance(it, ast.Name) and it.id in getattr(self, "tuple_elems", {}):
             ts = self.tuple_elems[it.id]
             if len(ts) == len(target.elts):
@@ -400,7 +403,7 @@ class FuncTypes:
                 if isinstance(target.elts[0], ast.Name):
                     out.append((target.elts[0].id, T_STR))
                 if isinstance(target.elts[1], ast.Name):
-                    out.append((target.elts[1].id, T_NODE if inner == T_NDICT else T_STR if inner == T_DICT else None))
+                    out.append((target.elts[1].id, T_NODE if inner == T_NDICT else T_STR if inner == T_DICT else T_SPEC if inner == T_SPEC else None))
             elif isinstance(f, ast.Name) and f.id == "zip" and len(target.elts) == len(it.args):
                 for a, b in zip(target.elts, it.args):
                     if isinstance(a, ast.Name) and self.type_of(b) == T_NLIST:
